@@ -8,7 +8,6 @@ split again.  A reference model (the generator's own arrays, exact rational
 arithmetic for the stamps) predicts every product; the time zone of the
 process is an environment knob that the results must not depend on."""
 import datetime
-import json
 import warnings
 from fractions import Fraction
 
@@ -70,7 +69,7 @@ CHUNK_KNOBS = [1024 ** 2, 1024 ** 2, 640, 960, 2960]
 MAX_PARTS = 8
 MAX_JOIN_EVENTS = 320
 #: generate 'HH:MM:SS' and 'HH:MM:SS.ff' stamps inside one second in the same run (string order != chronological order)
-MIXED_TIME_FORMATS = False
+MIXED_TIME_FORMATS = True
 #: compare index_online in the round trip as well (join shifts it, so this is off; see ASSUMPTIONS)
 JUDGE_INDEX_ONLINE_ROUNDTRIP = False
 
@@ -534,6 +533,7 @@ class World:
                 with dclab.new_dataset(x["path"]) as ds:
                     x["anc"][f] = read_feat(ds, f)
         self.ctx.probe("join_ancillary_input")
+        self.ctx.count("join_ancillary_" + f)
         return x["anc"][f]
 
     def run_join(self, ins, tag, roundtrip_of=None):
@@ -600,7 +600,8 @@ class World:
             real_violation = ctx.violation
 
             def order_violation(oracle, detail, sig=None, **kw):
-                real_violation("C09.join.order", f"[{oracle}] {detail}; stamp strings "
+                pre = "" if oracle == "C09.join.order" else f"[{oracle}] "
+                real_violation("C09.join.order", f"{pre}{detail}; stamp strings in the given order "
                                f"{['_'.join([x['date'], x['time'], str(x['run'])]) for x in ins]}", sig=dict(base_sig), **kw)
             ctx = _Redirect(ctx, order_violation)
         with ctx.sut("C09.open", sig={"kind": "joined"}):
